@@ -137,6 +137,8 @@ type multiClient struct {
 	streams map[string]*cliStream
 	all     []*cliStream
 	openErr error
+	openErrFirst []error // consumed one per open attempt before anything else: transient failures
+	attempts     []metadata.MD // outgoing metadata of EVERY open attempt, failed ones included
 	opened  chan *cliStream // optional notification
 }
 
@@ -145,6 +147,18 @@ func newMultiClient() *multiClient { return &multiClient{streams: map[string]*cl
 func (f *multiClient) StreamWorkflowReplicationMessages(ctx context.Context, opts ...grpc.CallOption) (adminservice.AdminService_StreamWorkflowReplicationMessagesClient, error) {
 	f.mu.Lock()
 	defer f.mu.Unlock()
+	if md, ok := metadata.FromOutgoingContext(ctx); ok {
+		f.attempts = append(f.attempts, md.Copy())
+	} else {
+		f.attempts = append(f.attempts, nil)
+	}
+	if len(f.openErrFirst) > 0 {
+		err := f.openErrFirst[0]
+		f.openErrFirst = f.openErrFirst[1:]
+		if err != nil {
+			return nil, err
+		}
+	}
 	if f.openErr != nil {
 		return nil, f.openErr
 	}
